@@ -584,3 +584,25 @@ def conform_conc(traces, wd, max_rounds=4):
         rs = list(ex.map(one, jobs))
     return {"scenarios": sum(r[0] for r in rs), "events": sum(r[1] for r in rs), "sends": sum(r[3] for r in rs),
             "drifts": [d for r in rs for d in r[2]]}
+
+
+# --------------------------------------------------------------------------- Apalache (thorough tier)
+def run_apalache_flwconc():
+    """spec/apa/run.sh: the safety invariants of FlwConc.tla by an inductive invariant discharged with Apalache
+    (records per producer and application operations unbounded; containers within the generator bounds).
+    A failure is a tool error (it speaks about the model). Returns a dict for the evidence."""
+    t = time.time()
+    try:
+        p = subprocess.run(["bash", os.path.join(SPEC, "apa", "run.sh")], stdout=subprocess.PIPE, stderr=subprocess.STDOUT,
+                           text=True, timeout=3600)
+    except subprocess.TimeoutExpired as ex:
+        raise ToolError("Apalache run timed out") from ex
+    steps = re.findall(r"^APALACHE (\S+) (\S+) (OK|FAIL|TIMEOUT) (\d+)", p.stdout, re.M)
+    if p.returncode != 0 or "APALACHE ALL OK" not in p.stdout:
+        raise ToolError("Apalache: the inductive invariant of FlwConc is not discharged:\n" + p.stdout[-1500:])
+    return {"tool": "apalache-mc 0.58.0", "script": "spec/apa/run.sh", "module": "spec/apa/FlwConcApa.tla",
+            "steps": [{"step": a, "mode": b, "result": c, "s": int(d)} for a, b, c, d in steps],
+            "statement": "Init => IndInv, IndInv /\\ Next => IndInv', IndInv => C03_NoDuplicate /\\ C03_PerProducerOrder /\\ "
+                         "C03_OnlyAccepted /\\ C03_AllArrive /\\ C04_AfterShutdown /\\ C04_AfterFlush /\\ C04_CloneDropKeepsWriter for "
+                         "each write mode, up to 3 producers, PerProducer and MaxAppOps unbounded; sequences <= 5, sets <= 8 "
+                         "elements in the symbolic pre-state", "wall_s": round(time.time() - t, 1)}
